@@ -54,11 +54,13 @@ import (
 	"sync"
 	"testing"
 	"time"
+	"unicode"
 
 	"github.com/emersion/go-message/textproto"
 	"github.com/emersion/go-msgauth/authres"
 	"github.com/emersion/go-smtp"
 	"github.com/foxcpp/go-mockdns"
+	"github.com/foxcpp/maddy/framework/address"
 	"github.com/foxcpp/maddy/framework/buffer"
 	parser "github.com/foxcpp/maddy/framework/cfgparser"
 	"github.com/foxcpp/maddy/framework/config"
@@ -86,8 +88,129 @@ type c06Err struct{ check int }
 
 func (e *c06Err) Error() string { return "scripted verdict of check " + strconv.Itoa(e.check) }
 
-// result builds the raw CheckResult and lets the REAL FailAction.Apply merge the action in.
-func (v c06V) result(check int) module.CheckResult {
+// c06Dirs: how the three actions of the scripted checks are WRITTEN in the configuration: the
+// arguments of the `<x>_action` directive for the slots i (ignore), q (quarantine), r (reject).
+// The slot of a directive is the documented meaning of its lower-cased first word (an unknown word
+// may sit in any slot: it has to be refused at load).
+type c06Dirs [3][]string
+
+const c06Slots = "iqr"
+
+var c06Words = [3]string{"ignore", "quarantine", "reject"}
+
+// c06DirEnc: one directive as an op token part: arguments joined by '+', '_' for a space, '~' for
+// the empty argument (the generated arguments are made of [A-Za-z0-9.-] and spaces).
+func c06DirEnc(args []string) string {
+	if len(args) == 0 {
+		return "!"
+	}
+	var p []string
+	for _, a := range args {
+		if a == "" {
+			p = append(p, "~")
+		} else {
+			p = append(p, strings.ReplaceAll(a, " ", "_"))
+		}
+	}
+	return strings.Join(p, "+")
+}
+
+func c06DirDec(s string) ([]string, error) {
+	if s == "!" {
+		return nil, nil
+	}
+	var out []string
+	for _, a := range strings.Split(s, "+") {
+		switch {
+		case a == "":
+			return nil, errors.New("bad directive " + s)
+		case a == "~":
+			out = append(out, "")
+		default:
+			for _, ch := range a {
+				if !(ch >= 'a' && ch <= 'z' || ch >= 'A' && ch <= 'Z' || ch >= '0' && ch <= '9' || ch == '.' || ch == '-' || ch == '_') {
+					return nil, errors.New("bad directive " + s)
+				}
+			}
+			out = append(out, strings.ReplaceAll(a, "_", " "))
+		}
+	}
+	return out, nil
+}
+
+func (d *c06Dirs) String() string {
+	return "d=" + c06DirEnc(d[0]) + "," + c06DirEnc(d[1]) + "," + c06DirEnc(d[2])
+}
+
+// c06DocWord: the documented meaning of a directive: the slot (0 i, 1 q, 2 r) of its lower-cased
+// first word, -1 when that is none of the three documented words.
+func c06DocWord(args []string) int {
+	if len(args) == 0 {
+		return -1
+	}
+	for k, w := range c06Words {
+		if strings.ToLower(args[0]) == w {
+			return k
+		}
+	}
+	return -1
+}
+
+func c06ParseDirs(tok string) (*c06Dirs, error) {
+	parts := strings.Split(strings.TrimPrefix(tok, "d="), ",")
+	if !strings.HasPrefix(tok, "d=") || len(parts) != 3 {
+		return nil, errors.New("bad d= token " + tok)
+	}
+	var d c06Dirs
+	for k, p := range parts {
+		a, err := c06DirDec(p)
+		if err != nil {
+			return nil, err
+		}
+		if w := c06DocWord(a); w >= 0 && w != k {
+			return nil, errors.New("directive in the slot of another action: " + tok)
+		}
+		d[k] = a
+	}
+	return &d, nil
+}
+
+// c06Acts: the three FailAction values of a pipeline's checks as the REAL directive parser made them.
+type c06Acts struct{ a [3]modconfig.FailAction }
+
+// c06Load: "configuration load" of the actions - every directive through modconfig.ParseActionDirective
+// (nil: the lower-case one-word spellings); an error = the configuration is refused.
+func c06Load(d *c06Dirs) (*c06Acts, error) {
+	if d == nil {
+		d = &c06Dirs{{"ignore"}, {"quarantine"}, {"reject"}}
+	}
+	acts := &c06Acts{}
+	for k := range d {
+		fa, err := modconfig.ParseActionDirective(d[k])
+		if err != nil {
+			return nil, err
+		}
+		acts.a[k] = fa
+	}
+	return acts, nil
+}
+
+var c06DefActs *c06Acts
+
+func c06DefaultActs() *c06Acts {
+	if c06DefActs == nil {
+		a, err := c06Load(nil)
+		if err != nil {
+			panic("the lower-case action directives are refused: " + err.Error())
+		}
+		c06DefActs = a
+	}
+	return c06DefActs
+}
+
+// result builds the raw CheckResult and lets the REAL FailAction.Apply merge the action in; the
+// FailAction is what the REAL directive parser made of the action's directive (acts; nil: default spelling).
+func (v c06V) result(check int, acts *c06Acts) module.CheckResult {
 	var raw module.CheckResult
 	switch v.raw {
 	case '1':
@@ -103,8 +226,10 @@ func (v c06V) result(check int) module.CheckResult {
 		raw.Reason = &c06Err{check}
 		raw.Reject = true
 	}
-	act := modconfig.FailAction{Quarantine: v.act == 'q', Reject: v.act == 'r'}
-	return act.Apply(raw)
+	if acts == nil {
+		acts = c06DefaultActs()
+	}
+	return acts.a[strings.IndexByte(c06Slots, v.act)].Apply(raw)
 }
 
 // proper maps a verdict to the four verdicts of the property: n i q r ; "?" for results the
@@ -153,9 +278,57 @@ func (s *c06Script) at(stage string) c06V {
 type c06Block struct {
 	checks  []int
 	targets []int
+	nomod   bool // the block has no `modify` directive: its modifier group is empty
 }
 
-type c06Rcpt struct{ id, blk int }
+func (b c06Block) spec() string {
+	s := c06Ids(b.checks) + "/" + c06Ids(b.targets)
+	if b.nomod {
+		s += "/n"
+	}
+	return s
+}
+
+func c06ParseBlock(s string) c06Block {
+	p := strings.Split(s, "/")
+	if len(p) < 2 || len(p) > 3 || (len(p) == 3 && p[2] != "n") {
+		panic("bad block " + s)
+	}
+	return c06Block{c06ParseIds(p[0]), c06ParseIds(p[1]), len(p) == 3}
+}
+
+// c06Rcpt: one RCPT command. sp: how the client wrote the address - 0 as the pipeline gets it,
+// 'd' domain in upper case, 'm' domain in mixed case; the endpoint normalises the domain
+// (address.CleanDomain) before the pipeline sees the address, so these are repeats of ONE recipient.
+type c06Rcpt struct {
+	id, blk int
+	sp      byte
+}
+
+func (r c06Rcpt) spec() string {
+	s := fmt.Sprintf("%d:%d", r.id, r.blk)
+	if r.sp != 0 {
+		s += string(r.sp)
+	}
+	return s
+}
+
+// literal: the RCPT TO argument as the client wrote it
+func (r c06Rcpt) literal() string {
+	a := c06Addr(r.id, r.blk)
+	i := strings.IndexByte(a, '@')
+	switch r.sp {
+	case 'd':
+		return a[:i] + strings.ToUpper(a[i:])
+	case 'm':
+		dom := []byte(a[i+1:])
+		for j := 0; j < len(dom); j += 2 {
+			dom[j] = byte(unicode.ToUpper(rune(dom[j])))
+		}
+		return a[:i+1] + string(dom)
+	}
+	return a
+}
 
 // c06MF: for which calls the scripted modifiers fail (value: 't' temporary 4xx, 'p' permanent 5xx).
 type c06MF struct {
@@ -299,6 +472,10 @@ type c06Case struct {
 	q0      bool     // MsgMetadata.Quarantine is already set when Start is called
 	mf      *c06MF   // failures of the scripted modifiers (nil: none)
 	inner   *c06Case // the pipeline behind the target of kind "px"; inner.rcpts is its routing table (id:block)
+	nomodG  bool     // the global scope has no `modify` directive (empty modifier group)
+	nomodS  bool     // the source block has none
+	dirs    *c06Dirs // how the actions of the checks are written in the configuration (nil: ignore / quarantine / reject)
+	acts    *c06Acts // not part of the op line: actions loaded already (TestVerifC06Action)
 	form    byte     // how the envelope sender is written: 0/'n' plain, 'z' null reverse-path, 'i' IDN domain, 'q' quoted local part, 'u' upper case
 	src     int      // multi ops: the source block the sender selects (the last one is default_source)
 }
@@ -373,6 +550,19 @@ func (c *c06Case) op() string {
 		if c.formOr() != 'n' {
 			f = append(f, "f="+string(c.form))
 		}
+		if c.nomodG || c.nomodS {
+			nm := "nm="
+			if c.nomodG {
+				nm += "g"
+			}
+			if c.nomodS {
+				nm += "s"
+			}
+			f = append(f, nm)
+		}
+		if c.dirs != nil {
+			f = append(f, c.dirs.String())
+		}
 		return "C06 run " + strings.Join(f, " ")
 	}
 	q := "-"
@@ -386,10 +576,10 @@ func (c *c06Case) op() string {
 func (c *c06Case) fields() []string {
 	var bl, rc, sc, dl []string
 	for _, b := range c.blocks {
-		bl = append(bl, c06Ids(b.checks)+"/"+c06Ids(b.targets))
+		bl = append(bl, b.spec())
 	}
 	for _, r := range c.rcpts {
-		rc = append(rc, fmt.Sprintf("%d:%d", r.id, r.blk))
+		rc = append(rc, r.spec())
 	}
 	for _, s := range c.scripts {
 		var ids []int
@@ -428,9 +618,13 @@ func c06Parse(op string) (c *c06Case, err error) {
 	}
 	switch {
 	case t[1] == "run" && len(t) == 11:
-		return c06ParseFields(t[2:])
-	case t[1] == "run" && len(t) >= 12 && len(t) <= 14:
-		// [Q] [m=...] [f=<sender form>]
+		c, err = c06ParseFields(t[2:])
+		if err != nil {
+			return nil, err
+		}
+		return c, c06ModsOK(c)
+	case t[1] == "run" && len(t) >= 12 && len(t) <= 16:
+		// [Q] [m=...] [f=<sender form>] [nm=<g|s|gs>] [d=<directives>]
 		rest := t[11:]
 		c, err = c06ParseFields(t[2:11])
 		if err != nil {
@@ -444,14 +638,22 @@ func c06Parse(op string) (c *c06Case, err error) {
 			c.mf, err = c06ParseMF(rest[0])
 			rest = rest[1:]
 		}
-		if len(rest) == 1 && len(rest[0]) == 3 && strings.HasPrefix(rest[0], "f=") && strings.IndexByte(c06Forms, rest[0][2]) >= 0 {
+		if len(rest) >= 1 && len(rest[0]) == 3 && strings.HasPrefix(rest[0], "f=") && strings.IndexByte(c06Forms, rest[0][2]) >= 0 {
 			c.form = rest[0][2]
+			rest = rest[1:]
+		}
+		if len(rest) >= 1 && (rest[0] == "nm=g" || rest[0] == "nm=s" || rest[0] == "nm=gs") {
+			c.nomodG, c.nomodS = strings.Contains(rest[0], "g"), strings.HasSuffix(rest[0], "s")
+			rest = rest[1:]
+		}
+		if len(rest) >= 1 && strings.HasPrefix(rest[0], "d=") && err == nil {
+			c.dirs, err = c06ParseDirs(rest[0])
 			rest = rest[1:]
 		}
 		if len(rest) != 0 || err != nil {
 			return nil, errors.New("bad trailing tokens of a C06 run op")
 		}
-		return c, nil
+		return c, c06ModsOK(c)
 	case t[1] == "nest" && len(t) == 21 && t[12] == "//" && (t[11] == "Q" || t[11] == "-"):
 		c, err = c06ParseFields(t[2:11])
 		if err != nil {
@@ -465,6 +667,40 @@ func c06Parse(op string) (c *c06Case, err error) {
 		return c, c06NestOK(c)
 	}
 	return nil, errors.New("not a C06 run/nest op")
+}
+
+// c06ModsOK: a modifier group that does not exist cannot fail (the same restriction as Driver/C06.lean).
+func c06ModsOK(c *c06Case) error {
+	if c.mf.empty() {
+		return nil
+	}
+	bad := errors.New("a modifier fault names a scope without modifiers")
+	for k := range c.mf.sender {
+		if (k == "g" && c.nomodG) || (k == "s" && c.nomodS) {
+			return bad
+		}
+	}
+	blkOf := map[int]int{}
+	for _, r := range c.rcpts {
+		blkOf[r.id] = r.blk
+	}
+	for id, sc := range c.mf.rcpt {
+		for k := range sc {
+			b, ok := blkOf[id]
+			if (k == 'g' && c.nomodG) || (k == 's' && c.nomodS) || (k == 'b' && ok && c.blocks[b].nomod) {
+				return bad
+			}
+		}
+	}
+	for k := range c.mf.body {
+		if (k == "g" && c.nomodG) || (k == "s" && c.nomodS) {
+			return bad
+		}
+		if b, err := strconv.Atoi(k); err == nil && b < len(c.blocks) && c.blocks[b].nomod {
+			return bad
+		}
+	}
+	return nil
 }
 
 // c06NestOK: what a nest op may contain (the same restrictions as Driver/C06.lean): the nested
@@ -499,7 +735,7 @@ func c06NestOK(c *c06Case) error {
 			vs = append(vs, v)
 		}
 		for _, v := range vs {
-			if c06EffOf(v.result(0)) != "n" && c06EffOf(v.result(0)) != "q" {
+			if c06EffOf(v.result(0, nil)) != "n" && c06EffOf(v.result(0, nil)) != "q" {
 				return errors.New("nest: inner verdict " + v.String())
 			}
 		}
@@ -519,15 +755,22 @@ func c06ParseFields(t []string) (c *c06Case, err error) {
 	t = append([]string{"C06", "run"}, t...)
 	c = &c06Case{mode: t[2], dmarc: t[3], global: c06ParseIds(t[4]), source: c06ParseIds(t[5])}
 	for _, b := range strings.Split(t[6], ";") {
-		p := strings.Split(b, "/")
-		c.blocks = append(c.blocks, c06Block{c06ParseIds(p[0]), c06ParseIds(p[1])})
+		c.blocks = append(c.blocks, c06ParseBlock(b))
 	}
 	c.tgts = strings.Split(t[7], ",")
 	for _, r := range strings.Split(t[8], ",") {
 		p := strings.Split(r, ":")
 		id, _ := strconv.Atoi(p[0])
-		blk, _ := strconv.Atoi(p[1])
-		c.rcpts = append(c.rcpts, c06Rcpt{id, blk})
+		var sp byte
+		if n := len(p[1]); n > 1 && (p[1][n-1] == 'd' || p[1][n-1] == 'm') {
+			sp = p[1][n-1]
+			p[1] = p[1][:n-1]
+		}
+		blk, err := strconv.Atoi(p[1])
+		if err != nil || blk >= len(c.blocks) {
+			panic("bad recipient " + r)
+		}
+		c.rcpts = append(c.rcpts, c06Rcpt{id, blk, sp})
 	}
 	for _, s := range strings.Split(t[9], ";") {
 		p := strings.Split(s, "/")
@@ -586,7 +829,8 @@ type c06TxCtx struct {
 	sender  string
 	addrs   map[string]bool
 	body    string
-	anyArg  bool // do not look at the arguments (decoy)
+	anyArg  bool     // do not look at the arguments (decoy)
+	acts    *c06Acts // the checks' actions as the configuration parser made them (nil: default spelling)
 }
 
 // c06Shared: the messages in flight on the pipeline the check belongs to.
@@ -622,8 +866,29 @@ type c06Check struct {
 
 func c06Body(id string) string { return "hello " + id + "\r\n" }
 
-func (c *c06Check) Init(*config.Map) error { return nil }
-func (c *c06Check) Name() string           { return "verif_check" }
+// Init: the configuration block of the check (multi ops: `verif_c06 <id> { ignore_action … }`) -
+// the three action directives through config.Map and the real modconfig.FailActionDirective, the
+// defaults through the real parser too.
+func (c *c06Check) Init(cfg *config.Map) error {
+	if cfg == nil {
+		return nil
+	}
+	acts := &c06Acts{}
+	for k, w := range c06Words {
+		w := w
+		cfg.Custom(w+"_action", false, false, func() (interface{}, error) {
+			return modconfig.ParseActionDirective([]string{w})
+		}, modconfig.FailActionDirective, &acts.a[k])
+	}
+	if _, err := cfg.Process(); err != nil {
+		return err
+	}
+	if c06Cur != nil {
+		c06Cur.acts = acts
+	}
+	return nil
+}
+func (c *c06Check) Name() string { return "verif_check" }
 func (c *c06Check) InstanceName() string   { return "verif_check" + strconv.Itoa(c.id) }
 
 type c06State struct {
@@ -708,7 +973,7 @@ func (s *c06State) do(stage string, di int, arg string) module.CheckResult {
 	if d := dl[di]; d > 0 {
 		time.Sleep(time.Duration(d) * c06DelayUnit)
 	}
-	res := s.tx.script(s.c.id).at(stage).result(s.c.id)
+	res := s.tx.script(s.c.id).at(stage).result(s.c.id, s.tx.acts)
 	rec.mu.Lock()
 	call.eff = c06EffOf(res)
 	rec.seq++
@@ -976,16 +1241,35 @@ func (d *c06Dlv) Commit(ctx context.Context) error { d.committed = true; return 
 
 func c06Addr(id, blk int) string { return fmt.Sprintf("u%d@b%d.example", id, blk) }
 
+// c06Collector keeps the books the way the LMTP endpoint does (endpoint/smtp statusWrapper): one
+// entry per ACCEPTED RCPT command under the address the pipeline was given (the literal argument
+// with the domain normalised); a failure status uses up the oldest command of that address still
+// without one; success is not recorded; a command left without a status is answered 250.
 type c06Collector struct {
-	mu sync.Mutex
-	st map[int][]error
+	mu      sync.Mutex
+	keys    map[string][]int // pipeline address -> accepted RCPT commands still without a failure status
+	fail    map[int]error    // RCPT command -> its failure status
+	dropped int              // failure statuses for an address all commands of which have one already
+	unknown int              // statuses for an address no accepted command has
+	known   map[string]bool
 }
 
 func (c *c06Collector) SetStatus(rcpt string, err error) {
 	c.mu.Lock()
 	defer c.mu.Unlock()
-	id := c06RcptId(rcpt)
-	c.st[id] = append(c.st[id], err)
+	if !c.known[rcpt] {
+		c.unknown++
+	}
+	if err == nil {
+		return
+	}
+	keys := c.keys[rcpt]
+	if len(keys) == 0 {
+		c.dropped++
+		return
+	}
+	c.keys[rcpt] = keys[1:]
+	c.fail[keys[0]] = err
 }
 
 // ---------------------------------------------------------------- one transaction on the real pipeline
@@ -997,7 +1281,11 @@ type c06Info struct {
 	rcptRef   []bool
 	rcptWhy   []string
 	bodyKind  string       // none ok chk dmarc tgt other
-	status    map[int]bool // accepted recipient -> served
+	status    map[int]bool // accepted recipient -> served (every command naming it)
+	cmdOK     []bool       // per RCPT command: accepted and answered 250 after DATA
+	partial   []int        // LMTP: DATA was refused before the targets, these accepted RCPT commands got no failure status
+	loadRef   bool         // the configuration (an action directive) was refused at load: nothing ran
+	statusUnk int          // LMTP: statuses reported for an address no accepted command has
 	finalQ    bool
 	rec       *c06Rec
 	tgts      []*c06Target
@@ -1054,6 +1342,7 @@ type c06Pipe struct {
 	modRec   *c06ModRec
 	tgts     []*c06Target
 	checks   []module.Check
+	acts     *c06Acts // multi ops: what the checks' Init made of the action directives
 }
 
 func (r *c06Rec) setCmd(k int) { r.mu.Lock(); r.cmd = k; r.mu.Unlock() }
@@ -1065,6 +1354,10 @@ func c06Build(c *c06Case, routes map[string]int, nested module.DeliveryTarget, c
 	sh := &c06Shared{txs: map[string]*c06TxCtx{ctx.id: ctx}, cur: ctx}
 	pp := &c06Pipe{rec: rec, ctx: ctx, sh: sh, modRec: &c06ModRec{}}
 	mods := func(scope string, blk int) modify.Group {
+		// a scope without a `modify` directive: the empty group
+		if (scope == "g" && c.nomodG) || (scope == "s" && c.nomodS) || (scope == "b" && c.blocks[blk].nomod) {
+			return modify.Group{}
+		}
 		return modify.Group{Modifiers: []module.Modifier{&c06Mod{scope: scope, blk: blk, mf: c.mf, rec: pp.modRec}}}
 	}
 	checks := make([]module.Check, len(c.scripts))
@@ -1151,8 +1444,9 @@ type c06Tx struct {
 	phase    int // 0 before MAIL, 1 between MAIL and DATA, 2 finished
 	next     int // the next RCPT command
 	anyAcc   bool
-	before   func(k int)     // called before command k (0 MAIL, k RCPT k, n+1 DATA)
-	accepted func(r c06Rcpt) // an RCPT command was accepted
+	keys     map[string][]int       // the endpoint's rcptKeys: pipeline address -> accepted RCPT commands
+	before   func(k int)            // called before command k (0 MAIL, k RCPT k, n+1 DATA)
+	accepted func(k int, r c06Rcpt) // RCPT command k (0-based) was accepted
 }
 
 // c06NewCtx: what the checks are told about the one message of a case. addrs: the addresses the
@@ -1167,7 +1461,7 @@ func c06NewCtx(id string, c *c06Case, sender string, addrs []string) *c06TxCtx {
 
 func c06NewTx(c *c06Case, pp *c06Pipe, ctx *c06TxCtx) *c06Tx {
 	tx := &c06Tx{c: c, pp: pp, ctx: ctx}
-	tx.info = &c06Info{c: c, rec: ctx.rec, tgts: pp.tgts, status: map[int]bool{}, nested: c.inner != nil, modRec: pp.modRec, txID: ctx.id}
+	tx.info = &c06Info{c: c, rec: ctx.rec, tgts: pp.tgts, status: map[int]bool{}, cmdOK: make([]bool, len(c.rcpts)), nested: c.inner != nil, modRec: pp.modRec, txID: ctx.id}
 	tx.meta = &module.MsgMetadata{ID: ctx.id, DontTraceSender: true, OriginalFrom: ctx.sender, Quarantine: c.q0}
 	return tx
 }
@@ -1201,15 +1495,23 @@ func (tx *c06Tx) step() bool {
 		r := c.rcpts[k]
 		tx.next++
 		tx.setCmd(k + 1)
-		err := tx.dlv.AddRcpt(ctx, c06Addr(r.id, r.blk), smtp.RcptOptions{})
+		// as the endpoint does: the domain of the literal argument is normalised, the pipeline gets the result
+		cleanTo, err := address.CleanDomain(r.literal())
+		if err == nil {
+			err = tx.dlv.AddRcpt(ctx, cleanTo, smtp.RcptOptions{})
+		}
 		info.rcptRef = append(info.rcptRef, err != nil)
 		if err != nil {
 			info.rcptWhy = append(info.rcptWhy, c06Why(err))
 		} else {
 			info.rcptWhy = append(info.rcptWhy, "")
 			tx.anyAcc = true
+			if tx.keys == nil {
+				tx.keys = map[string][]int{}
+			}
+			tx.keys[cleanTo] = append(tx.keys[cleanTo], k)
 			if tx.accepted != nil {
-				tx.accepted(r)
+				tx.accepted(k, r)
 			}
 		}
 	case tx.phase == 1:
@@ -1242,30 +1544,49 @@ func (tx *c06Tx) data() {
 			delivery.Commit(ctx)
 		}
 	default:
-		col := &c06Collector{st: map[int][]error{}}
+		col := &c06Collector{keys: map[string][]int{}, fail: map[int]error{}, known: map[string]bool{}}
+		for a, ks := range tx.keys {
+			col.keys[a] = append([]int(nil), ks...)
+			col.known[a] = true
+		}
 		delivery.(module.PartialDelivery).BodyNonAtomic(ctx, col, hdr, body)
 		delivery.Commit(ctx) // the LMTP endpoint always commits
-		// classify: a refusal before the targets reports the same error for every recipient
+		info.statusUnk = col.unknown
+		// classify: a refusal before the targets reports the same error for every accepted RCPT
+		// command; a command without a failure status is answered 250 (the LMTP server fills in
+		// success for every command the handler did not report on)
 		kinds := map[string]int{}
 		n := 0
-		for _, errs := range col.st {
-			for _, e := range errs {
-				n++
-				if e == nil {
-					kinds["ok"]++
-				} else {
-					kinds[c06Why(e)]++
-				}
+		for k := range c.rcpts {
+			if info.rcptRef[k] {
+				continue
+			}
+			n++
+			if e := col.fail[k]; e == nil {
+				kinds["ok"]++
+				info.cmdOK[k] = true
+			} else {
+				kinds[c06Why(e)]++
+			}
+		}
+		pre := ""
+		for _, k := range []string{"chk", "dmarc", "mod"} {
+			if kinds[k] > 0 && pre == "" {
+				pre = k
 			}
 		}
 		switch {
-		case kinds["chk"] > 0 && kinds["chk"] == n:
-			info.bodyKind = "chk"
-		case kinds["dmarc"] > 0 && kinds["dmarc"] == n:
-			info.bodyKind = "dmarc"
-		case kinds["mod"] > 0 && kinds["mod"] == n:
-			info.bodyKind = "mod"
-		case kinds["chk"] > 0 || kinds["dmarc"] > 0 || kinds["mod"] > 0:
+		case pre != "" && kinds[pre] == n:
+			info.bodyKind = pre
+		case pre != "" && kinds[pre]+kinds["ok"] == n:
+			// the refusal did not reach every command
+			info.bodyKind = pre
+			for k := range c.rcpts {
+				if !info.rcptRef[k] && col.fail[k] == nil {
+					info.partial = append(info.partial, k)
+				}
+			}
+		case pre != "":
 			info.bodyKind = "other:mixed-statuses"
 		default:
 			info.bodyKind = "ok"
@@ -1275,25 +1596,22 @@ func (tx *c06Tx) data() {
 				}
 			}
 		}
+	}
+	if c.mode == "smtp" && tx.anyAcc {
+		for k := range c.rcpts {
+			info.cmdOK[k] = !info.rcptRef[k] && info.bodyKind == "ok"
+		}
+	}
+	if tx.anyAcc {
 		for k, r := range c.rcpts {
 			if info.rcptRef[k] {
 				continue
 			}
-			// a recipient without a status is served: the LMTP server fills in success for
-			// every recipient the handler did not report on
-			served := true
-			for _, e := range col.st[r.id] {
-				if e != nil {
-					served = false
-				}
+			if _, seen := info.status[r.id]; !seen {
+				info.status[r.id] = true
 			}
-			info.status[r.id] = served
-		}
-	}
-	if c.mode == "smtp" && tx.anyAcc {
-		for k, r := range c.rcpts {
-			if !info.rcptRef[k] {
-				info.status[r.id] = info.bodyKind == "ok"
+			if !info.cmdOK[k] {
+				info.status[r.id] = false
 			}
 		}
 	}
@@ -1323,6 +1641,17 @@ func (tx *c06Tx) giveUp() {
 }
 
 func c06Run(c *c06Case) *c06Info {
+	// configuration load: the action directives of the checks through the real parser
+	acts := c.acts
+	if acts == nil {
+		var err error
+		if acts, err = c06Load(c.dirs); err != nil {
+			if c.dirs == nil {
+				panic(err)
+			}
+			return &c06Info{c: c, loadRef: true, obs: "load=refused", outcome: "load=refused", rec: c06NewRec(), status: map[int]bool{}}
+		}
+	}
 	routes := map[string]int{}
 	for i := range c.blocks {
 		routes[fmt.Sprintf("b%d.example", i)] = i
@@ -1345,7 +1674,8 @@ func c06Run(c *c06Case) *c06Info {
 		for _, r := range c.rcpts {
 			ir[c06Addr(r.id, r.blk)] = iroute[r.id]
 		}
-		ip = c06Build(c.inner, ir, nil, c06NewCtx("verif", c.inner, sender, addrs))
+		ictx := c06NewCtx("verif", c.inner, sender, addrs)
+		ip = c06Build(c.inner, ir, nil, ictx)
 		nested = ip.p
 		hasNest = func(blk int) bool {
 			for _, t := range c.blocks[blk].targets {
@@ -1357,25 +1687,28 @@ func c06Run(c *c06Case) *c06Info {
 		}
 	}
 	ctx := c06NewCtx("verif", c, sender, addrs)
+	ctx.acts = acts
 	op := c06Build(c, routes, nested, ctx)
 	tx := c06NewTx(c, op, ctx)
 	var handed []c06Rcpt // what the nested pipeline was given, in order
+	var handedCmd []int  // the outer RCPT command of each
 	tx.before = func(int) {
 		if ip != nil {
 			// commands as the inner pipeline sees them: its k-th AddRcpt (its Start runs inside the first), then the body
 			ip.rec.setCmd(len(handed) + 1)
 		}
 	}
-	tx.accepted = func(r c06Rcpt) {
+	tx.accepted = func(k int, r c06Rcpt) {
 		if hasNest(r.blk) {
-			handed = append(handed, c06Rcpt{r.id, 0})
+			handed = append(handed, c06Rcpt{id: r.id})
+			handedCmd = append(handedCmd, k)
 		}
 	}
 	for tx.step() {
 	}
 	info := tx.info
 	if ip != nil {
-		c06Inner(info, ip, handed)
+		c06Inner(info, ip, handed, handedCmd)
 	}
 	return info
 }
@@ -1395,7 +1728,7 @@ func c06QuarantineReturned(in *c06Info) bool {
 // c06Inner: the transaction as the nested pipeline saw it. A nest op's inner pipeline never refuses
 // a command itself, so it was handed exactly the accepted recipients of the outer blocks that list
 // it; it was shown the body iff the outer pipeline's checks and DMARC policy let DATA through.
-func c06Inner(out *c06Info, ip *c06Pipe, handed []c06Rcpt) {
+func c06Inner(out *c06Info, ip *c06Pipe, handed []c06Rcpt, handedCmd []int) {
 	c := out.c
 	if len(handed) == 0 {
 		out.strayCall = len(ip.rec.calls) > 0 || len(ip.decoyRec.calls) > 0
@@ -1411,9 +1744,9 @@ func c06Inner(out *c06Info, ip *c06Pipe, handed []c06Rcpt) {
 	ic.mode = c.mode
 	ic.rcpts = nil
 	for _, h := range handed {
-		ic.rcpts = append(ic.rcpts, c06Rcpt{h.id, iroute[h.id]})
+		ic.rcpts = append(ic.rcpts, c06Rcpt{id: h.id, blk: iroute[h.id]})
 	}
-	in := &c06Info{c: ic, rec: ip.rec, tgts: ip.tgts, status: map[int]bool{}, txID: "verif"}
+	in := &c06Info{c: ic, rec: ip.rec, tgts: ip.tgts, status: map[int]bool{}, cmdOK: make([]bool, len(handed)), txID: "verif"}
 	in.rcptRef = make([]bool, len(handed))
 	in.rcptWhy = make([]string, len(handed))
 	ran := !out.startRef && (out.bodyKind == "ok" || out.bodyKind == "tgt")
@@ -1425,14 +1758,19 @@ func c06Inner(out *c06Info, ip *c06Pipe, handed []c06Rcpt) {
 	default:
 		in.bodyKind = "ok"
 	}
-	for _, h := range handed {
+	for i, h := range handed {
 		switch {
 		case !ran:
-			in.status[h.id] = false
 		case c.mode == "smtp":
-			in.status[h.id] = in.bodyKind == "ok"
+			in.cmdOK[i] = in.bodyKind == "ok"
 		default:
-			in.status[h.id] = out.status[h.id]
+			in.cmdOK[i] = out.cmdOK[handedCmd[i]]
+		}
+		if _, seen := in.status[h.id]; !seen {
+			in.status[h.id] = true
+		}
+		if !in.cmdOK[i] {
+			in.status[h.id] = false
 		}
 	}
 	in.finalQ = out.finalQ
@@ -1465,18 +1803,17 @@ func c06Obs(in *c06Info) string {
 	if in.startRef {
 		bodyS = "none"
 	}
-	var ids []int
-	for id := range in.status {
-		ids = append(ids, id)
-	}
-	sort.Ints(ids)
+	// what every accepted RCPT command is answered after DATA, in command order
 	var st []string
-	for _, id := range ids {
+	for k, ref := range in.rcptRef {
+		if ref {
+			continue
+		}
 		s := "f"
-		if in.status[id] {
+		if in.cmdOK[k] {
 			s = "o"
 		}
-		st = append(st, fmt.Sprintf("%d:%s", id, s))
+		st = append(st, fmt.Sprintf("%d:%s", c.rcpts[k].id, s))
 	}
 	// hand-offs: deliveries whose target took the body (SMTP: only if the whole message was accepted)
 	var del []string
@@ -1754,6 +2091,35 @@ func c06Monitor(out *vh.Out, op string, in *c06Info) {
 		}
 	}
 
+	// ---- a refusal of DATA before the targets refuses EVERY accepted RCPT command: over LMTP each
+	// command has its own reply, and a command left without a failure status is answered 250
+	// although nothing is delivered for it (SMTP refuses DATA as a whole)
+	for _, k := range in.partial {
+		sig := "C06/reject-not-enforced"
+		if in.bodyKind == "mod" {
+			sig = "C06/smtp-lmtp-differ"
+		}
+		out.Violation(sig, op, fmt.Sprintf("DATA was refused before the targets (%s) and nothing is delivered, but accepted RCPT command %d (recipient %d, written %s) got no failure status: over LMTP it is answered 250",
+			in.bodyKind, k+1, c.rcpts[k].id, c.rcpts[k].literal()))
+	}
+
+	// ---- RCPT commands naming the same recipient are answered alike after DATA: one address, one
+	// block, the same targets - the message is delivered for it or it is not (a failure status that
+	// reaches only one of the commands leaves the other one answered 250)
+	if dataRan && len(in.partial) == 0 {
+		first := map[int]int{}
+		for k, r := range c.rcpts {
+			if k >= len(in.rcptRef) || in.rcptRef[k] {
+				continue
+			}
+			if j, ok := first[r.id]; !ok {
+				first[r.id] = k
+			} else if in.cmdOK[j] != in.cmdOK[k] {
+				out.Violation("C06/repeated-recipient-answers-differ", op, fmt.Sprintf("RCPT commands %d and %d name the same recipient %d and were both accepted; after DATA (%s) one is answered 250, the other one is refused", j+1, k+1, r.id, in.bodyKind))
+			}
+		}
+	}
+
 	// ---- nothing happens without a verdict (from the calls really made)
 	// a refused command is justified by a reject an applicable check returned about its subject:
 	// MAIL - connection or sender; RCPT - this recipient (now or, for a repeated recipient, when the
@@ -1909,9 +2275,39 @@ func c06Monitor(out *vh.Out, op string, in *c06Info) {
 				add(ci, fmt.Sprintf("r%d", r.id))
 			}
 		}
+		// the body: exactly one CheckBody call per check and message, whatever the number of blocks
+		// that reference the check and of state objects it had
+		for ci := range c.scripts {
+			if want[ci] == nil || !want[ci]["b"] {
+				continue
+			}
+			n := 0
+			for _, call := range in.rec.calls {
+				if call.check == ci && call.stage == "b" {
+					n++
+				}
+			}
+			if n == 0 {
+				out.Violation("C06/stage-not-seen", op, fmt.Sprintf("the message passed the checks, check %d (applies to it: global, source or a destination block with an accepted recipient) saw the body 0 times", ci))
+			} else if n > 1 {
+				out.Violation("C06/stage-seen-twice", op, fmt.Sprintf("check %d saw the body %d times in one message", ci, n))
+			}
+		}
 		for ci, stages := range want {
 			last := in.rec.inst[ci] - 1
 			for st := range stages {
+				if st == "b" && cnt[key{ci, last, st}] == 0 {
+					// reported above unless another state object of the check saw it
+					n := 0
+					for _, call := range in.rec.calls {
+						if call.check == ci && call.stage == "b" {
+							n++
+						}
+					}
+					if n == 0 {
+						continue
+					}
+				}
 				if cnt[key{ci, last, st}] == 0 {
 					out.Violation("C06/stage-not-seen", op, fmt.Sprintf("the message passed the checks, check %d saw stage %s %d times", ci, st, cnt[key{ci, last, st}]))
 				}
@@ -1953,7 +2349,12 @@ func c06CheckOutcome(in *c06Info) string {
 	j := strings.Index(o, " q=")
 	k := strings.Index(o, " del=")
 	l := strings.Index(o, " log=")
-	return o[:i] + " body=" + body + o[j:k] + o[l:]
+	st := ""
+	if body == "chk" || body == "dmarc" || body == "mod" {
+		// refused before the targets: every accepted RCPT command is refused on both paths
+		st = o[strings.Index(o, " st="):j]
+	}
+	return o[:i] + " body=" + body + st + o[j:k] + o[l:]
 }
 
 func c06Stats(out *vh.Out, in *c06Info) {
@@ -2032,6 +2433,72 @@ func c06Stats(out *vh.Out, in *c06Info) {
 					}
 				}
 			}
+		}
+	}
+	if c.nomodG {
+		out.Stat("nomod.global-scope")
+	}
+	if c.nomodS {
+		out.Stat("nomod.source-block")
+	}
+	{
+		any, hit := false, false
+		for k, r := range c.rcpts {
+			blk := c.blocks[r.blk]
+			if !blk.nomod {
+				continue
+			}
+			any = true
+			if k < len(in.rcptRef) && !in.rcptRef[k] && len(blk.checks) > 0 && !in.startRef {
+				hit = true
+				for _, ci := range blk.checks {
+					if c06Has(c.global, ci) || c06Has(c.source, ci) {
+						continue
+					}
+					if p := c.scripts[ci].body.proper(); p == "r" || p == "q" {
+						out.Stat("nomod.block-without-modifiers.accepted-rcpt.own-check-body-verdict-" + p)
+					}
+				}
+			}
+		}
+		if any {
+			out.Stat("nomod.recipient-routed-to-block-without-modifiers")
+		}
+		if hit {
+			out.Stat("nomod.block-without-modifiers.with-checks.accepted-rcpt.data-" + in.bodyKind)
+		}
+		mixed := map[bool]bool{}
+		for _, b := range c.blocks {
+			mixed[b.nomod] = true
+		}
+		if len(mixed) == 2 {
+			out.Stat("nomod.blocks-with-and-without-modifiers")
+		}
+	}
+	{
+		acc := map[int][]int{}
+		for k, r := range c.rcpts {
+			if r.sp != 0 {
+				out.Stat("rcpt.spelling." + string(r.sp))
+			}
+			if k < len(in.rcptRef) && !in.rcptRef[k] {
+				acc[r.id] = append(acc[r.id], k)
+			}
+		}
+		for _, ks := range acc {
+			if len(ks) < 2 || in.startRef {
+				continue
+			}
+			out.Stat("dup.recipient-accepted-by-several-commands." + c.mode + ".data-" + in.bodyKind)
+			for _, k := range ks[1:] {
+				if c.rcpts[k].sp != c.rcpts[ks[0]].sp {
+					out.Stat("dup.recipient-accepted-by-several-commands.spelled-differently")
+					break
+				}
+			}
+		}
+		if in.statusUnk > 0 {
+			out.Stat("note.status-for-unknown-address")
 		}
 	}
 	out.Stat("mode." + c.mode)
@@ -2158,10 +2625,53 @@ func c06Clone(c *c06Case) *c06Case {
 	return &n
 }
 
+// c06DirsMonitor: the configuration with these action directives was ACCEPTED - every directive
+// has to be one of the documented actions (then the run has to enforce the meaning of its
+// lower-case spelling: the script's verdict letters are the slots, the monitor rules do the rest).
+func c06DirsMonitor(out *vh.Out, op string, d *c06Dirs) {
+	if d == nil {
+		return
+	}
+	for k := range d {
+		if c06DocWord(d[k]) < 0 {
+			out.Violation("C06/invalid-action-accepted", op, fmt.Sprintf("the action directive %q (slot %c) names none of reject / quarantine / ignore and was accepted at configuration load", strings.Join(d[k], " "), c06Slots[k]))
+		}
+	}
+}
+
+func c06DirsStats(out *vh.Out, d *c06Dirs, refused bool) {
+	if d == nil {
+		return
+	}
+	if refused {
+		out.Stat("dirs.load-refused")
+	} else {
+		out.Stat("dirs.loaded")
+	}
+	for k := range d {
+		w := c06DocWord(d[k])
+		switch {
+		case len(d[k]) == 0:
+			out.Stat("dirs.directive.no-arguments")
+		case w < 0:
+			out.Stat("dirs.directive.unknown-word")
+		case d[k][0] == c06Words[w]:
+			out.Stat(fmt.Sprintf("dirs.directive.lower-case.args-%d", len(d[k])-1))
+		default:
+			out.Stat("dirs.directive.other-case")
+		}
+	}
+}
+
 func c06One(out *vh.Out, c *c06Case) *c06Info {
 	op := c.op()
 	in := c06Run(c)
 	out.Corr(op, in.obs)
+	c06DirsStats(out, c.dirs, in.loadRef)
+	if in.loadRef {
+		return in
+	}
+	c06DirsMonitor(out, op, c.dirs)
 	c06MonitorNest(out, op, in)
 	c06Stats(out, in)
 	return in
@@ -2169,7 +2679,7 @@ func c06One(out *vh.Out, c *c06Case) *c06Info {
 
 func c06CaseRun(out *vh.Out, c *c06Case, companions bool) {
 	base := c06One(out, c)
-	if !companions {
+	if !companions || base.loadRef {
 		return
 	}
 	op := c.op()
@@ -2250,6 +2760,7 @@ func c06CaseRun(out *vh.Out, c *c06Case, companions bool) {
 type c06Src struct {
 	checks []int
 	blocks []c06Block
+	nomod  bool // no `modify` directive in the source block
 }
 
 // c06Multi: ONE pipeline object built by the real configuration parser from generated
@@ -2265,6 +2776,7 @@ type c06Multi struct {
 	srcs   []c06Src
 	sched  []int
 	txs    []*c06Case
+	dirs   *c06Dirs // the `<x>_action` directives written into every check's configuration block (nil: none, the defaults apply)
 }
 
 func c06SrcDomain(m *c06Multi, k int) (dom, idn string) {
@@ -2278,7 +2790,8 @@ func c06SrcDomain(m *c06Multi, k int) (dom, idn string) {
 func (m *c06Multi) fill() {
 	for _, c := range m.txs {
 		c.dmarc, c.global, c.tgts = m.dmarc, m.global, m.tgts
-		c.source, c.blocks = m.srcs[c.src].checks, m.srcs[c.src].blocks
+		c.source, c.blocks, c.nomodS = m.srcs[c.src].checks, m.srcs[c.src].blocks, m.srcs[c.src].nomod
+		c.dirs = m.dirs
 	}
 }
 
@@ -2287,15 +2800,22 @@ func (m *c06Multi) op() string {
 	for _, s := range m.srcs {
 		var bl []string
 		for _, b := range s.blocks {
-			bl = append(bl, c06Ids(b.checks)+"/"+c06Ids(b.targets))
+			bl = append(bl, b.spec())
 		}
-		ss = append(ss, c06Ids(s.checks)+"~"+strings.Join(bl, ";"))
+		sp := c06Ids(s.checks) + "~" + strings.Join(bl, ";")
+		if s.nomod {
+			sp += "~n"
+		}
+		ss = append(ss, sp)
 	}
 	var sc strings.Builder
 	for _, i := range m.sched {
 		sc.WriteByte(byte('0' + i))
 	}
 	f := []string{"C06", "multi", m.dmarc, c06Ids(m.global), strings.Join(m.tgts, ","), strings.Join(ss, "_"), sc.String()}
+	if m.dirs != nil {
+		f = append(f, m.dirs.String())
+	}
 	for _, c := range m.txs {
 		tf := c.fields()
 		who := strconv.Itoa(c.src) + string(c.formOr())
@@ -2314,19 +2834,25 @@ func c06ParseMulti(op string) (m *c06Multi, err error) {
 		}
 	}()
 	t := strings.Fields(op)
+	var dirs *c06Dirs
+	if len(t) > 8 && strings.HasPrefix(t[7], "d=") {
+		if dirs, err = c06ParseDirs(t[7]); err != nil {
+			return nil, err
+		}
+		t = append(append([]string(nil), t[:7]...), t[8:]...)
+	}
 	if len(t) < 13 || t[0] != "C06" || t[1] != "multi" || (len(t)-7)%6 != 0 {
 		return nil, errors.New("not a C06 multi op")
 	}
-	m = &c06Multi{dmarc: t[2], global: c06ParseIds(t[3]), tgts: strings.Split(t[4], ",")}
+	m = &c06Multi{dmarc: t[2], global: c06ParseIds(t[3]), tgts: strings.Split(t[4], ","), dirs: dirs}
 	for _, s := range strings.Split(t[5], "_") {
 		p := strings.Split(s, "~")
-		if len(p) != 2 {
+		if len(p) < 2 || len(p) > 3 || (len(p) == 3 && p[2] != "n") {
 			return nil, errors.New("bad source block " + s)
 		}
-		src := c06Src{checks: c06ParseIds(p[0])}
+		src := c06Src{checks: c06ParseIds(p[0]), nomod: len(p) == 3}
 		for _, b := range strings.Split(p[1], ";") {
-			q := strings.Split(b, "/")
-			src.blocks = append(src.blocks, c06Block{c06ParseIds(q[0]), c06ParseIds(q[1])})
+			src.blocks = append(src.blocks, c06ParseBlock(b))
 		}
 		m.srcs = append(m.srcs, src)
 	}
@@ -2352,7 +2878,7 @@ func c06ParseMulti(op string) (m *c06Multi, err error) {
 			return nil, errors.New("the null reverse-path is handled by the default source: " + who)
 		}
 		bl := strings.Split(t[5], "_")[src]
-		c, err := c06ParseFields([]string{t[i+1], m.dmarc, t[3], "-", strings.SplitN(bl, "~", 2)[1], t[4], t[i+3], t[i+4], t[i+5]})
+		c, err := c06ParseFields([]string{t[i+1], m.dmarc, t[3], "-", strings.Split(bl, "~")[1], t[4], t[i+3], t[i+4], t[i+5]})
 		if err != nil {
 			return nil, err
 		}
@@ -2410,9 +2936,24 @@ func init() {
 // c06ConfigText: the configuration of the pipeline of a multi op.
 func c06ConfigText(m *c06Multi) string {
 	var b strings.Builder
+	quote := func(args []string) string {
+		var p []string
+		for _, a := range args {
+			p = append(p, strconv.Quote(a))
+		}
+		return strings.Join(p, " ")
+	}
 	checks := func(ind string, ids []int) {
 		for _, id := range ids {
-			fmt.Fprintf(&b, "%scheck {\n%s    verif_c06 %d\n%s}\n", ind, ind, id, ind)
+			if m.dirs == nil {
+				fmt.Fprintf(&b, "%scheck {\n%s    verif_c06 %d\n%s}\n", ind, ind, id, ind)
+				continue
+			}
+			fmt.Fprintf(&b, "%scheck {\n%s    verif_c06 %d {\n", ind, ind, id)
+			for k, w := range c06Words {
+				fmt.Fprintf(&b, "%s        %s_action %s\n", ind, w, quote(m.dirs[k]))
+			}
+			fmt.Fprintf(&b, "%s    }\n%s}\n", ind, ind)
 		}
 	}
 	checks("", m.global)
@@ -2430,11 +2971,15 @@ func c06ConfigText(m *c06Multi) string {
 			b.WriteString("default_source {\n")
 		}
 		checks("    ", s.checks)
-		fmt.Fprintf(&b, "    modify {\n        verif_c06_mod s %d\n    }\n", k)
+		if !s.nomod {
+			fmt.Fprintf(&b, "    modify {\n        verif_c06_mod s %d\n    }\n", k)
+		}
 		for i, blk := range s.blocks {
 			fmt.Fprintf(&b, "    destination b%d.example {\n", i)
 			checks("        ", blk.checks)
-			fmt.Fprintf(&b, "        modify {\n            verif_c06_mod b %d\n        }\n", i)
+			if !blk.nomod {
+				fmt.Fprintf(&b, "        modify {\n            verif_c06_mod b %d\n        }\n", i)
+			}
 			for _, t := range blk.targets {
 				fmt.Fprintf(&b, "        deliver_to verif_c06_tgt %d\n", t)
 			}
@@ -2481,13 +3026,17 @@ func c06BuildParsed(m *c06Multi, ctxs []*c06TxCtx) (*c06Pipe, error) {
 	p.Resolver = &mockdns.Resolver{Zones: zones}
 	p.Log = log.Logger{Out: log.NopOutput{}}
 	pp.p = p
+	for _, ctx := range ctxs {
+		ctx.acts = pp.acts
+	}
 	return pp, nil
 }
 
 type c06MultiRes struct {
-	infos []*c06Info
-	pp    *c06Pipe
-	obs   string
+	infos   []*c06Info
+	pp      *c06Pipe
+	obs     string
+	loadRef bool
 }
 
 // c06RunMulti: all transactions of the op on one pipeline object, commands in schedule order.
@@ -2503,6 +3052,14 @@ func c06RunMulti(m *c06Multi) (*c06MultiRes, error) {
 	}
 	pp, err := c06BuildParsed(m, ctxs)
 	if err != nil {
+		if m.dirs != nil {
+			// refused because of an action directive: the same configuration without them is accepted
+			plain := c06CloneMulti(m)
+			plain.dirs = nil
+			if _, err2 := c06BuildParsed(plain, ctxs); err2 == nil {
+				return &c06MultiRes{obs: "load=refused", loadRef: true}, nil
+			}
+		}
 		return nil, err
 	}
 	var txs []*c06Tx
@@ -2544,6 +3101,11 @@ func c06MultiOne(t *testing.T, out *vh.Out, m *c06Multi) *c06MultiRes {
 		t.Fatalf("the configuration of a multi op was not accepted: %v\n%s\n%s", err, op, c06ConfigText(m))
 	}
 	out.Corr(op, res.obs)
+	c06DirsStats(out, m.dirs, res.loadRef)
+	if res.loadRef {
+		return res
+	}
+	c06DirsMonitor(out, op, m.dirs)
 	for _, in := range res.infos {
 		if in.open {
 			out.Stat("multi.tx.left-open")
@@ -2563,7 +3125,7 @@ func c06MultiOne(t *testing.T, out *vh.Out, m *c06Multi) *c06MultiRes {
 // interleaving: what each of them shows must not depend on the others.
 func c06MultiCase(t *testing.T, out *vh.Out, m *c06Multi, companions bool) {
 	base := c06MultiOne(t, out, m)
-	if !companions {
+	if !companions || base.loadRef {
 		return
 	}
 	op := m.op()
@@ -2724,7 +3286,221 @@ func c06Gen(r *vh.Rng, big bool) *c06Case {
 		}
 	}
 	c.form = c06GenForm(r)
+	c06GenNoMod(r, c)
+	if r.Chance(14) {
+		c06GenDup(r, c)
+	}
+	for i := range c.rcpts {
+		if r.Chance(6) {
+			c.rcpts[i].sp = r.Pick("d", "m")[0]
+		}
+	}
+	if r.Chance(12) {
+		c.dirs = c06GenDirs(r)
+		c06GenDirsUse(r, c.dirs, c)
+	}
 	return c
+}
+
+// c06GenNoMod: scopes without a `modify` directive (the empty modifier group) - destination blocks
+// independently of each other and of whether they have checks; a group scripted to fail exists.
+// Favoured: a check referenced only by such a block has something to say about the body.
+func c06GenNoMod(r *vh.Rng, c *c06Case) {
+	faultG, faultS := false, false
+	faultB := map[int]bool{}
+	if !c.mf.empty() {
+		blkOf := map[int]int{}
+		for _, rc := range c.rcpts {
+			blkOf[rc.id] = rc.blk
+		}
+		for k := range c.mf.sender {
+			faultG, faultS = faultG || k == "g", faultS || k == "s"
+		}
+		for id, sc := range c.mf.rcpt {
+			for k := range sc {
+				switch k {
+				case 'g':
+					faultG = true
+				case 's':
+					faultS = true
+				default:
+					if b, ok := blkOf[id]; ok {
+						faultB[b] = true
+					} else {
+						for b := range c.blocks {
+							faultB[b] = true
+						}
+					}
+				}
+			}
+		}
+		for k := range c.mf.body {
+			switch k {
+			case "g":
+				faultG = true
+			case "s":
+				faultS = true
+			default:
+				b, _ := strconv.Atoi(k)
+				faultB[b] = true
+			}
+		}
+	}
+	c.nomodG = !faultG && r.Chance(20)
+	c.nomodS = !faultS && r.Chance(20)
+	for b := range c.blocks {
+		c.blocks[b].nomod = !faultB[b] && r.Chance(45)
+	}
+	if r.Chance(35) {
+		for _, rc := range c.rcpts {
+			blk := c.blocks[rc.blk]
+			if blk.nomod && len(blk.checks) > 0 {
+				ci := blk.checks[r.Intn(len(blk.checks))]
+				c.scripts[ci].body = c06V{'1', r.Pick("r", "q", "q")[0]}
+				break
+			}
+		}
+	}
+}
+
+// c06GenDup: the same recipient named by two RCPT commands (identical spelling, or spellings the
+// endpoint's normalisation makes equal), mostly with a refusal of DATA before the targets: a check
+// applying to it rejects the body, the DMARC policy rejects, or a body modifier fails.
+func c06GenDup(r *vh.Rng, c *c06Case) {
+	j := r.Intn(len(c.rcpts))
+	d := c.rcpts[j]
+	d.sp = r.Pick("\x00", "\x00", "d", "m")[0]
+	at := j + 1 + r.Intn(len(c.rcpts)-j)
+	c.rcpts = append(c.rcpts[:at:at], append([]c06Rcpt{d}, c.rcpts[at:]...)...)
+	switch x := r.Intn(100); {
+	case x < 60:
+		app := append(append(append([]int(nil), c.global...), c.source...), c.blocks[d.blk].checks...)
+		if len(app) > 0 {
+			c.scripts[app[r.Intn(len(app))]].body = c06V{'1', 'r'}
+		}
+	case x < 75:
+		c.dmarc = "rej"
+	}
+}
+
+var c06OddWords = []string{"", "rejected", "drop", "deny", "accept", "quarantin", "ignored", "reject ", "none", "fail", "Reject550", "quarantine.", "rej", "-reject"}
+
+// c06GenWord: the documented word k as somebody may write it (or, rarely, something else).
+func c06GenWord(r *vh.Rng, k int, pLower int) string {
+	w := c06Words[k]
+	x := r.Intn(100)
+	switch {
+	case x < pLower:
+		return w
+	case x < pLower+(100-pLower)*3/10:
+		return strings.ToUpper(w[:1]) + w[1:]
+	case x < pLower+(100-pLower)*6/10:
+		return strings.ToUpper(w)
+	case x < pLower+(100-pLower)*8/10:
+		b := []byte(w)
+		for i := range b {
+			if r.Bool() {
+				b[i] -= 'a' - 'A'
+			}
+		}
+		if string(b) == w {
+			b[len(b)-1] -= 'a' - 'A'
+		}
+		return string(b)
+	}
+	return c06OddWords[r.Intn(len(c06OddWords))]
+}
+
+// c06GenOverride: the arguments after the action word (custom reply code, enhanced code, text).
+func c06GenOverride(r *vh.Rng, pValid int) []string {
+	code := func() string {
+		if r.Chance(pValid) {
+			return r.Pick("550", "554", "451", "421", "501", "0550", "599", "400")
+		}
+		return r.Pick("250", "600", "399", "99", "-550", "abc", "", "5x0", "55", "5500")
+	}
+	enh := func() string {
+		if r.Chance(pValid) {
+			return r.Pick("5.7.1", "4.7.0", "5.1.1", "4.0.0", "5.07.001", "5.-7.1", "4.999.0")
+		}
+		return r.Pick("2.0.0", "5.7", "5.7.1.2", "a.b.c", "5..1", "", "0.7.0", "6.1.1", "5.7.x", "571")
+	}
+	msg := func() string {
+		if r.Chance(pValid) {
+			return r.Pick("go away", "x", "Blocked by policy", "No")
+		}
+		return ""
+	}
+	switch x := r.Intn(100); {
+	case x < 35:
+		return nil
+	case x < 55:
+		return []string{code()}
+	case x < 75:
+		return []string{code(), enh()}
+	case x < 95:
+		return []string{code(), enh(), msg()}
+	}
+	return []string{code(), enh(), "go away", r.Pick("extra", "", "5.7.1")}
+}
+
+// c06GenDirs: the three action directives of a configuration.  Half of the tables are what the
+// documentation allows (lower-case word, well-formed optional reply code / enhanced code / text);
+// in the others one directive deviates: another spelling of the word, an unknown word, no
+// argument at all, malformed or surplus arguments.
+func c06GenDirs(r *vh.Rng) *c06Dirs {
+	d := &c06Dirs{}
+	dev := -1
+	if r.Chance(50) {
+		dev = r.Intn(3)
+		if r.Chance(70) {
+			dev = 1 + r.Intn(2) // the actions that do something
+		}
+	}
+	for k := range d {
+		pLower, pValid := 100, 100
+		if k == dev {
+			pLower, pValid = 25, 70
+			if r.Chance(4) {
+				continue // a directive without arguments
+			}
+		}
+		d[k] = []string{c06GenWord(r, k, pLower)}
+		switch {
+		case k > 0:
+			d[k] = append(d[k], c06GenOverride(r, pValid)...)
+		case r.Chance(10):
+			// `ignore` takes no arguments; what follows is not looked at
+			d[k] = append(d[k], r.Pick("550", "x", ""))
+		}
+	}
+	return d
+}
+
+// c06GenDirsUse: a directive that is not the plain lower-case word is worth a verdict that uses it:
+// a check applying to the first recipient fails at some stage with that action.
+func c06GenDirsUse(r *vh.Rng, d *c06Dirs, c *c06Case) {
+	for k := 1; k < 3; k++ {
+		if len(d[k]) == 1 && d[k][0] == c06Words[k] && !r.Chance(30) {
+			continue
+		}
+		app := append(append(append([]int(nil), c.global...), c.source...), c.blocks[c.rcpts[0].blk].checks...)
+		if len(app) == 0 {
+			continue
+		}
+		v := c06V{'1', c06Slots[k]}
+		s := &c.scripts[app[r.Intn(len(app))]]
+		switch r.Intn(4) {
+		case 0:
+			s.conn = v
+		case 1:
+			s.sender = v
+		case 2:
+			s.body = v
+		default:
+			s.rcpt[c.rcpts[0].id] = v
+		}
+	}
 }
 
 // c06GenForm: how the reverse-path is written; the null reverse-path (bounces) is common.
@@ -2795,10 +3571,10 @@ func c06GenMulti(r *vh.Rng, big bool) *c06Multi {
 	}
 	nS := 1 + r.Intn(3)
 	for k := 0; k < nS; k++ {
-		src := c06Src{checks: scope(0, 1, 1, 2, 3, 3, 3)}
+		src := c06Src{checks: scope(0, 1, 1, 2, 3, 3, 3), nomod: r.Chance(25)}
 		nB := []int{1, 2, 2, 3}[r.Intn(4)]
 		for b := 0; b < nB; b++ {
-			blk := c06Block{checks: scope(0, 1, 1, 1, 2, 3)}
+			blk := c06Block{checks: scope(0, 1, 1, 1, 2, 3), nomod: r.Chance(45)}
 			n := 1
 			if r.Chance(30) {
 				n = 2
@@ -2860,7 +3636,7 @@ func c06GenMulti(r *vh.Rng, big bool) *c06Multi {
 				continue
 			}
 			used[id] = true
-			c.rcpts = append(c.rcpts, c06Rcpt{id, blkOf[id]})
+			c.rcpts = append(c.rcpts, c06Rcpt{id: id, blk: blkOf[id]})
 		}
 		for ci := 0; ci < nC; ci++ {
 			sc := c06Script{conn: gen(), sender: gen(), body: gen(), rcpt: map[int]c06V{}}
@@ -2886,9 +3662,26 @@ func c06GenMulti(r *vh.Rng, big bool) *c06Multi {
 				c.scripts[own[r.Intn(len(own))]].body = c06V{'1', r.Pick("r", "q")[0]}
 			}
 		}
+		if r.Chance(10) {
+			c.global, c.source, c.blocks = m.global, m.srcs[c.src].checks, m.srcs[c.src].blocks
+			c06GenDup(r, c)
+		}
+		for i := range c.rcpts {
+			if r.Chance(6) {
+				c.rcpts[i].sp = r.Pick("d", "m")[0]
+			}
+		}
 		m.txs = append(m.txs, c)
 	}
+	if r.Chance(10) {
+		m.dirs = c06GenDirs(r)
+	}
 	m.fill()
+	if m.dirs != nil {
+		for _, c := range m.txs {
+			c06GenDirsUse(r, m.dirs, c)
+		}
+	}
 	m.sched = c06Interleave(r, m)
 	return m
 }
@@ -3016,6 +3809,11 @@ func c06GenNest(r *vh.Rng, big bool) *c06Case {
 	in := c06GenOpt(r, c06Opt{noOdd: true, noRej: true, ids: maxId, fewQ: true, manyRQ: true})
 	in.mode = c.mode
 	c.inner = in
+	for _, cc := range []*c06Case{c, in} {
+		for b := range cc.blocks {
+			cc.blocks[b].nomod = r.Chance(40)
+		}
+	}
 	return c
 }
 
@@ -3121,13 +3919,13 @@ func c06GenOpt(r *vh.Rng, o c06Opt) *c06Case {
 			continue
 		}
 		used[id] = true
-		c.rcpts = append(c.rcpts, c06Rcpt{id, blkOf[id]})
+		c.rcpts = append(c.rcpts, c06Rcpt{id: id, blk: blkOf[id]})
 	}
 	if o.ids > 0 {
 		// not an envelope but the routing table: every id once
 		c.rcpts = nil
 		for i := 1; i <= maxId; i++ {
-			c.rcpts = append(c.rcpts, c06Rcpt{i, blkOf[i]})
+			c.rcpts = append(c.rcpts, c06Rcpt{id: i, blk: blkOf[i]})
 		}
 	}
 	// verdicts
@@ -3234,6 +4032,136 @@ func TestVerifC06Pipeline(t *testing.T) {
 	}
 }
 
+// c06ActEff: what a failing check whose action is fa does to a message, at each of the four stages:
+// a one-check pipeline (global scope) with the verdict at that stage only.
+func c06ActEff(fa modconfig.FailAction) [4]string {
+	var eff [4]string
+	for i, stage := range []string{"c", "s", "r", "b"} {
+		v := c06V{'1', 'r'}
+		sc := c06Script{conn: c06V{'0', 'i'}, sender: c06V{'0', 'i'}, body: c06V{'0', 'i'}, rcpt: map[int]c06V{}}
+		switch stage {
+		case "c":
+			sc.conn = v
+		case "s":
+			sc.sender = v
+		case "r":
+			sc.rcpt[1] = v
+		default:
+			sc.body = v
+		}
+		c := &c06Case{mode: []string{"smtp", "lmtp"}[i%2], dmarc: "off", global: []int{0}, blocks: []c06Block{{targets: []int{0}}}, tgts: []string{"pn"},
+			rcpts: []c06Rcpt{{id: 1}}, scripts: []c06Script{sc}, delays: [][4]int{{}}, acts: &c06Acts{a: [3]modconfig.FailAction{fa, fa, fa}}}
+		in := c06Run(c)
+		switch {
+		case in.startRef || (len(in.rcptRef) > 0 && in.rcptRef[0]) || in.bodyKind == "chk":
+			eff[i] = "rej"
+		case in.finalQ:
+			eff[i] = "quar"
+		default:
+			eff[i] = "none"
+		}
+	}
+	return eff
+}
+
+// The directive grammar: generated `<x>_action` directive lines through the REAL parser
+// (modconfig.ParseActionDirective); an accepted one is then used by a failing check at each of the
+// four stages.  Oracle: a directive is either refused at load, or its lower-cased first word is one
+// of the three documented actions and every stage enforces exactly that action.
+func TestVerifC06Action(t *testing.T) {
+	out := vh.Open("c06_action")
+	defer out.Close()
+	one := func(args []string) {
+		op := "C06 act " + c06DirEnc(args)
+		if back, err := c06DirDec(c06DirEnc(args)); err != nil || strings.Join(back, "\x00") != strings.Join(args, "\x00") || len(back) != len(args) {
+			t.Fatalf("directive does not round-trip: %q", args)
+		}
+		fa, err := modconfig.ParseActionDirective(args)
+		doc := c06DocWord(args)
+		switch {
+		case len(args) == 0:
+			out.Stat("act.no-arguments")
+		case doc < 0:
+			out.Stat("act.unknown-word")
+		case args[0] == c06Words[doc]:
+			out.Stat(fmt.Sprintf("act.%s.lower-case.args-%d", c06Words[doc], len(args)-1))
+		default:
+			out.Stat(fmt.Sprintf("act.%s.other-case", c06Words[doc]))
+		}
+		if err != nil {
+			out.Stat("act.refused")
+			out.Corr(op, "refused")
+			return
+		}
+		out.Stat("act.accepted")
+		b := func(x bool) string {
+			if x {
+				return "1"
+			}
+			return "0"
+		}
+		ovr := "-"
+		if o := fa.ReasonOverride; o != nil {
+			ovr = fmt.Sprintf("%d/%d.%d.%d/%s", o.Code, o.EnhancedCode[0], o.EnhancedCode[1], o.EnhancedCode[2], strings.ReplaceAll(o.Message, " ", "_"))
+		}
+		eff := c06ActEff(fa)
+		out.Corr(op, fmt.Sprintf("ok q=%s r=%s ovr=%s eff=%s", b(fa.Quarantine), b(fa.Reject), ovr, strings.Join(eff[:], ",")))
+		if doc < 0 {
+			out.Violation("C06/invalid-action-accepted", op, fmt.Sprintf("the action directive %q names none of reject / quarantine / ignore and was accepted", strings.Join(args, " ")))
+			return
+		}
+		want := [3]string{"none", "quar", "rej"}[doc]
+		for i, st := range []string{"connection", "sender", "recipient", "body"} {
+			if eff[i] == want {
+				continue
+			}
+			sig := [3]string{"C06/ignore-changed-outcome", "C06/quarantine-not-flagged", "C06/reject-not-enforced"}[doc]
+			out.Violation(sig, op, fmt.Sprintf("the directive %q was accepted at configuration load and documents the action %s; a check failing with it at the %s stage: %s", strings.Join(args, " "), c06Words[doc], st, eff[i]))
+		}
+	}
+	if ops := vh.Replay(); ops != nil {
+		for _, op := range ops {
+			f := strings.Fields(op)
+			if len(f) != 3 || f[0] != "C06" || f[1] != "act" {
+				continue
+			}
+			args, err := c06DirDec(f[2])
+			if err != nil {
+				t.Fatalf("%v: %s", err, op)
+			}
+			one(args)
+		}
+		return
+	}
+	// the documented spellings, their other-case forms, nothing
+	one(nil)
+	for k, w := range c06Words {
+		one([]string{w})
+		one([]string{strings.ToUpper(w[:1]) + w[1:]})
+		one([]string{strings.ToUpper(w)})
+		one([]string{w, "550"})
+		one([]string{strings.ToUpper(w[:1]) + w[1:], "550", "5.7.1", "go away"})
+		_ = k
+	}
+	r := vh.NewRng(vh.Seed() + 6061)
+	n := vh.N(400)/3 + 60
+	for i := 0; i < n; i++ {
+		k := r.Intn(3)
+		if r.Chance(60) {
+			k = 1 + r.Intn(2)
+		}
+		if r.Chance(2) {
+			one(nil)
+			continue
+		}
+		args := []string{c06GenWord(r, k, 40)}
+		if k > 0 || r.Chance(30) {
+			args = append(args, c06GenOverride(r, 80)...)
+		}
+		one(args)
+	}
+}
+
 // The action table itself: FailAction.Apply on every raw result and what the runner does with it.
 func TestVerifC06Apply(t *testing.T) {
 	out := vh.Open("c06_apply")
@@ -3241,7 +4169,7 @@ func TestVerifC06Apply(t *testing.T) {
 	for _, raw := range "012345" {
 		for _, act := range "iqr" {
 			v := c06V{byte(raw), byte(act)}
-			res := v.result(0)
+			res := v.result(0, nil)
 			b := func(x bool) string {
 				if x {
 					return "1"
@@ -3249,8 +4177,8 @@ func TestVerifC06Apply(t *testing.T) {
 				return "0"
 			}
 			// what the runner does with it is observed on a one-check pipeline
-			c := &c06Case{mode: "smtp", dmarc: "off", global: []int{0}, blocks: []c06Block{{nil, []int{0}}}, tgts: []string{"an"},
-				rcpts: []c06Rcpt{{1, 0}}, scripts: []c06Script{{conn: c06V{'0', 'i'}, sender: c06V{'0', 'i'}, body: v, rcpt: map[int]c06V{}}}, delays: [][4]int{{}}}
+			c := &c06Case{mode: "smtp", dmarc: "off", global: []int{0}, blocks: []c06Block{{targets: []int{0}}}, tgts: []string{"an"},
+				rcpts: []c06Rcpt{{id: 1}}, scripts: []c06Script{{conn: c06V{'0', 'i'}, sender: c06V{'0', 'i'}, body: v, rcpt: map[int]c06V{}}}, delays: [][4]int{{}}}
 			in := c06Run(c)
 			eff := "none"
 			if in.bodyKind == "chk" {
